@@ -236,10 +236,25 @@ Definition seg (L : list wentry) (i j : nat) : list pentry :=
 Definition pick (L : list wentry) (idx : list nat) : list pentry :=
   flat_map (fun i => match nth_error L i with Some e => [to_proto e] | None => [] end) idx.
 
-(* getWALEntriesFromSequence: entries with seq >= from, at most 100 of them *)
+(* getWALEntriesFromSequence (since /repo f62340e): entries with seq >= from; when there are
+   more than 100, the first 100 and after them every entry that still carries the number of
+   the 100th ("end := 100; for end < len && all[end].seq == all[end-1].seq { end++ }") *)
 Definition PollLimit : nat := 100.
-Definition poll (L : list wentry) (from : N) : list pentry :=
-  map to_proto (firstn PollLimit (filter (fun e => from <=? w_seq e) L)).
+
+Fixpoint same_number (s : N) (l : list wentry) : list wentry :=
+  match l with
+  | e :: r => if w_seq e =? s then e :: same_number s r else []
+  | [] => []
+  end.
+
+Definition fetch (L : list wentry) (from : N) : list wentry :=
+  let all := filter (fun e => from <=? w_seq e) L in
+  if Nat.ltb PollLimit (length all) then
+    let hd := firstn PollLimit all in
+    hd ++ same_number (w_seq (last hd (mkW 0 0 [] []))) (skipn PollLimit all)
+  else all.
+
+Definition poll (L : list wentry) (from : N) : list pentry := map to_proto (fetch L from).
 
 (* what EngineApplier.Apply does to the replica's data: put and merge store the value,
    delete removes the key; the view is the sorted association list of live keys *)
